@@ -677,11 +677,17 @@ def reused_object_oracle(ctx):
 
         r_conc = r.random() < 0.5
         r_pad = r.choice([None, "edge", "constant"])
+        # axes counted from the end (time_axis=-2, feature axis -1): the same object then serves tensors of different rank
+        from_end = kind == "stack" and r.random() < 0.5
+        if from_end:
+            tax, axis = -2, -1
         obj = make()
         history = []
         for call in range(r.randint(2, 5)):
             dt = r.choice(dts)
             shp = list(shape) if r.random() < 0.75 else [r.randint(2, 6) for _ in range(nd)]
+            if from_end:
+                shp = [r.randint(2, 6) for _ in range(r.choice([2, 3, 4]))]
             x = (nprng.randn(*shp) * 20).astype(dt)
             try:
                 got = obj.apply(x.copy(), axis=axis)
